@@ -748,12 +748,12 @@ Proof. repeat split; reflexivity. Qed.
 Definition p_snapshot : prog :=
   [SS (SAssign 9%nat (EDisp [1; 2; 3])); SFor 8%nat (ECall FList (EAtom (AVar 9%nat))) [SRemove 9%nat (AVar 8%nat)];
    SS (SPrint (EAtom (AVar 9%nat)))].
-Theorem rri_before_116947d_refuted :
-  exists W fuel p, obs (run W fuel (rri_before_116947d p)) <> obs (run W fuel p).
+Theorem rri_before_608b244_refuted :
+  exists W fuel p, obs (run W fuel (rri_before_608b244 p)) <> obs (run W fuel p).
 Proof. exists W12, 5%nat, p_snapshot. differs. Qed.
 Example rri_snapshot_traces :
   obs (run W12 5%nat p_snapshot) = (None, [EvPrint (RList [])]) /\
-  obs (run W12 5%nat (rri_before_116947d p_snapshot)) = (None, [EvPrint (RList [2])]) /\
+  obs (run W12 5%nat (rri_before_608b244 p_snapshot)) = (None, [EvPrint (RList [2])]) /\
   rri p_snapshot = p_snapshot.
 Proof. repeat split; reflexivity. Qed.
 (* an immutable collection that has a name is still iterated over directly *)
@@ -777,7 +777,7 @@ Proof. repeat split; reflexivity. Qed.
 
 (* cf0e3b9: a generator expression stops at the first hit, the list comprehension runs to the end *)
 Definition p_lazy : prog := [SS (SPrint (EIn (AInt 1) (EComp (EGen 0%nat))))].
-Theorem oct_before_1454583_refuted :
+Theorem oct_before_cf0e3b9_refuted :
   exists W fuel p, obs (run W fuel (oct_before_2835a2e p)) <> obs (run W fuel p).
 Proof. exists W12, 5%nat, p_lazy. differs. Qed.
 Example oct_lazy_traces :
